@@ -1,9 +1,11 @@
 (** Extraction of the executable model to OCaml ([ExtrOcamlBasic] only). *)
 From Coq Require Import ExtrOcamlBasic NArith String.
-From DC Require Import Ts Hlc.
+From DC Require Import Ts Hlc Orswot.
 Extraction Language OCaml.
 Extraction "model.ml"
   N.add N.mul N.sub N.div N.modulo N.ltb N.leb N.eqb N.of_nat N.to_nat
   pack ts_new ts_node ts_counter ts_seconds ts_fractional ts_tick mk_ts
   to_le8 of_le8 show parse legacy_parse
-  send recv hlc_run clock_run.
+  send recv hlc_run clock_run
+  empty_set insert_ws delete_ws will_apply set_get set_diff set_purge add_raw_tombstones set_merge
+  entries_list dead_list before_set view apply_op run_ops.
